@@ -43,7 +43,7 @@ func TestVerif(t *testing.T) {
 
 	selfCheckClasses(t)
 
-	nA := r.N(640, 20000)
+	nA := r.N(1000, 20000)
 	for i := 0; i < nA; i++ {
 		r.Run(i, fmt.Sprintf("hist-%d", i), func(c *rep.Case) { runHistory(t, r, c, i) })
 	}
